@@ -19,6 +19,7 @@ import (
 
 	secp256k1 "gitlab.com/yawning/secp256k1-voi"
 	"gitlab.com/yawning/secp256k1-voi/secec"
+	"gitlab.com/yawning/secp256k1-voi/secec/bitcoin"
 
 	"verif/lib"
 	"verif/mc"
@@ -128,7 +129,15 @@ func checkSig(d *big.Int, digest []byte, r, s *big.Int, v byte) string {
 // runSign: one (d, digest, reader, option) case.
 func runSign(d *big.Int, digest []byte, sc mc.Script, oi int) string {
 	o := sopts[oi]
-	sk := lib.MkPriv(d)
+	// the key is built from a caller-owned scalar which the caller then reuses (derives a "child" in place),
+	// and a Schnorr key is derived from it: neither may change what the key signs with
+	own := lib.MkSC(d)
+	sk, kerr := secec.NewPrivateKeyFromScalar(own)
+	if kerr != nil {
+		return "NewPrivateKeyFromScalar failed: " + kerr.Error()
+	}
+	own.Add(own, lib.MkSC(big.NewInt(1)))
+	_ = bitcoin.NewSchnorrPrivateKeyFromECDSA(sk)
 	dg := append([]byte{}, digest...)
 	admissible := len(digest) >= 32 && (o.hsize == 0 || len(digest) == o.hsize)
 	encOK := o.enc <= 2
